@@ -84,6 +84,12 @@ def run_impl(style, mode, n, v, e, via="measurement"):
             if r != "MeasuredValue({})".format(s):
                 return ("inconsistent", "str {!r} repr {!r}".format(s, r))
             return s
+        if via == "array" and e >= 0:
+            a = q.MeasurementArray([v, 1.0], error=[e, 0.1])
+            s = str(a)
+            if not (s.startswith("[ ") and s.endswith(" ]") and s.count(", ") == 1):
+                return ("inconsistent", "array text {!r}".format(s))
+            return s[2:-2].split(", ")[0]
         from qexpy.utils.printing import get_printer
         return get_printer()(v, e)
     except Exception as ex:  # noqa
@@ -300,7 +306,7 @@ def load_corpus():
 def correspondence(ctx):
     res = CorrResult()
     rng = ctx.rng
-    n_pairs = ctx.n(1500, 40000)
+    n_pairs = ctx.n(3000, 40000)
     per_pair = ctx.n(9, 12)
     n_wild = ctx.n(300, 6000)
     configs = all_configs()
@@ -316,11 +322,12 @@ def correspondence(ctx):
             if digits > (12 if kind != "wild" else 14):
                 skipped += 1
                 continue
-            via = "measurement" if (kind != "wild" and rng.random() < 0.5) else "printer"
+            via = rng.choice(["measurement", "measurement", "array", "printer", "printer"]) if kind != "wild" else "printer"
             out = run_impl(s, m, n, v, e, via)
             ks.append((s, m, n, out))
             res.evaluations += 1
             res.count("{}:{}:{}".format(kind, s, m))
+            res.count("via:" + (via if e >= 0 else "printer"))
             res.count("n={}".format(n))
             if not isinstance(out, str):
                 res.count("impl:" + out[0])
@@ -392,7 +399,7 @@ def correspondence(ctx):
     res.rule = ("pairs (value, uncertainty) = decimal mantissas of <= 12 digits x 10^k, k in [-12, 12], biased to carry cases "
                 "(9.5.., 9.96.., 0.95.., 99.5), ties, exact powers of ten, zeros, negatives, 70% with the uncertainty -2..9 decades "
                 "below the value; each printed under {} of the 54 configurations (3 styles x 3 modes x n in 1..6) through "
-                "str(Measurement) / repr or get_printer(); plus the small scope v = m/100, m in [-50, 1100] x 12 uncertainties "
+                "str(Measurement) / repr, str(MeasurementArray) or get_printer(); plus the small scope v = m/100, m in [-50, 1100] x 12 uncertainties "
                 "around the carries (stride 1 = exhaustive in the thorough tier) and a wild stream outside the property's domain "
                 "(negative uncertainty, 1e+-15, n <= 9, <= 14 digits). The printed text is parsed to (mantissa integers, decimals, "
                 "exponent, style marks) and compared inside Coq with the model run with round-half-even; within 2^-47 relative of a "
@@ -486,7 +493,7 @@ def fails(case):
     style, mode, n, v, e = case["style"], case["mode"], case["n"], float(case["v"]), float(case["e"])
     if not in_domain(style, mode, n, v, e):
         return None
-    return check(style, mode, n, v, e) or check(style, mode, n, v, e, "printer")
+    return check(style, mode, n, v, e) or check(style, mode, n, v, e, "printer") or check(style, mode, n, v, e, "array")
 
 
 def shorter(x):
